@@ -481,6 +481,22 @@ def rand_builder_case(r, shape, maxsteps=6):
         steps += [rand_builder_step(r, shape) for _ in range(r.below(3))]
     else:
         steps = [rand_builder_step(r, shape) for _ in range(n)]
+    if steps and r.chance(1, 3):
+        # build, take the result's builder, go on: what a value carries from one build to the next must not matter.
+        # Half of the time with an edit of a qualifier that certainly exists, right after the rebuild (IndexMut on an
+        # absent key is a documented panic)
+        at = 1 + r.below(len(steps))
+        if r.chance(1, 2):
+            ensure, edit = r.pick([
+                ("q:%s:%s" % (hx("checksum"), hx("SHA1:00FF")), "pq:idxmut.%s.%s" % (hx("checksum"), hx(r.pick(["SHA256:ABCD,MD5:00FF", "sha1:xyz", ""])))),
+                ("q:%s:%s" % (hx("arch"), hx("x86")), "pq:idxmut.%s.%s" % (hx("Arch"), hx(""))),
+                ("q:%s:%s" % (hx("checksum"), hx("sha1:00ff")), "pq:retlt.%s" % hx("checksum")),
+                ("q:%s:%s" % (hx("checksum"), hx("sha1:00ff,md5:AA")), "pq:ent.%s.orm.%s" % (hx("Checksum"), hx(""))),
+                ("q:%s:%s" % (hx("arch"), hx("x86")), "pq:imut.%s" % hx("")),
+                ("q:%s:%s" % (hx("zz"), hx("1")), "pq:retne")])
+            steps[at:at] = [ensure, "rb", edit]
+        else:
+            steps[at:at] = ["rb"]
     script = ";".join(steps) if steps else "-"
     return case("build %s %s %s %s" % (shape, ty, name, script), "builder", shape=shape)
 
@@ -534,7 +550,7 @@ def rand_quals_step(r, sep=":"):
     if c == 21:
         return "clear" if r.chance(1, 4) else "len"
     if c == 22:
-        return r.pick(["iter", "riter", "len", "ends", "tgck"])
+        return r.pick(["iter", "riter", "len", "ends", "tgck", "eqf", "eqf"])
     if c == 23:
         return J([r.pick(["imut", "rimut"]), v()])
     if c == 24:
@@ -568,6 +584,8 @@ def st_quals(ctx, n, label="quals", maxsteps=8, documented_panics=False):
             at = r.below(len(steps) + 1)
             steps[at:at] = ["ins:%s:%s" % (hx(flipcase(r, kk)), hx("1")), "idxmut:%s:%s" % (hx(flipcase(r, kk)), hx(r.pick(["2", "", "x y"]))),
                             "idx:%s" % hx(flipcase(r, kk))]
+        if r.chance(1, 2):
+            steps.append("eqf")     # same content built from scratch: equal, same hash, same order — whatever the history
         if documented_panics and r.chance(1, 10):
             steps.append("idx:" + hx(r.pick(KEY_UNIVERSE)))
         out.append(case("quals " + ";".join(steps), "quals"))
@@ -595,7 +613,7 @@ def st_quals_exhaustive(ctx, depth):
     out = []
     for k in range(1, depth + 1):
         for tup in itertools.product(ops, repeat=k):
-            out.append(case("quals " + ";".join(tup) + ";iter;len", "quals-exhaustive"))
+            out.append(case("quals " + ";".join(tup) + ";iter;len;eqf", "quals-exhaustive"))
     return out
 
 
@@ -847,7 +865,9 @@ def st_shape(ctx, n, label="shape"):
         else:
             c = rand_builder_case(r, "S", 4)
             req = c["req"].split(" ", 2)[2]
-            out.append(case("shape %d build %s" % (bits, req), "shape-build", bits=bits))
+            t3 = req.split(" ")
+            t3[2] = ";".join(x for x in t3[2].split(";") if x != "rb") or "-"    # `rb` is for the built-in shapes only
+            out.append(case("shape %d build %s" % (bits, " ".join(t3)), "shape-build", bits=bits))
     return out
 
 
